@@ -273,6 +273,9 @@ func genNode(t *rapid.T, s *wset, n *schemaNode, density int) {
 				s.set(c.key(), c.gen(t), "")
 			}
 		case kStruct:
+			if c.ListElem {
+				continue // list elements are not written (only used as unknown-key sites)
+			}
 			enter := 45
 			if c.Custom {
 				enter = 65
@@ -411,7 +414,16 @@ func setPath(m map[string]any, path []string, v any) {
 // descend returns the map at path, creating maps on the way (a null or scalar
 // in the way is replaced).
 func descend(m map[string]any, path []string) map[string]any {
-	for _, k := range path {
+	for i, k := range path {
+		if k == listElem {
+			continue
+		}
+		if i+1 < len(path) && path[i+1] == listElem {
+			sub := map[string]any{}
+			m[k] = []any{sub}
+			m = sub
+			continue
+		}
 		sub, ok := m[k].(map[string]any)
 		if !ok {
 			sub = map[string]any{}
